@@ -5,6 +5,7 @@ Line protocol of the `extract` model (C05/C06).
 
   new <bufferSamples> <showKeys 0|1>
   data <v0>:<n> <reqs> <rems> <complete 0|1>
+  rt <K0> <k> <P>            (C06: predicted extractor sample for queue clock k, start K0, prestim P)
       chunk = cells v0 .. v0+n-1 ; reqs = key:s:len:tag,... | - ; rems = key,... | -
 
 Answer to `data`: `ok <items> done=<0|1>` | `err ValueError` | `dead`, where items is `-`
@@ -66,6 +67,11 @@ def step (d : DState) (ws : List String) : DState × String :=
     | some b, "0" => ({ st := State.init b, keys := false }, "ok")
     | some b, "1" => ({ st := State.init b, keys := true }, "ok")
     | _, _ => (d, "bad-op")
+  | ["rt", k0, k, pp] =>
+    -- C06 float-level stream: the integer the queue means, K0 + k, minus the prestim samples
+    match parseNat? k0, parseNat? k, parseNat? pp with
+    | some k0, some k, some pp => (d, s!"ok {(k0 : Int) + (k : Int) - (pp : Int)}")
+    | _, _, _ => (d, "bad-op")
   | ["data", ch, rq, rm, cp] =>
     match parseChunk? ch, (commaList rq).mapM parseReq?, parseNats? rm, cp with
     | some chunk, some reqs, some rems, c =>
